@@ -44,6 +44,61 @@ def source_lines():
     return out
 
 
+OPS2 = [(r"!(?=[a-z(])", ""), (r"\.with_epoch\([^()]*(\([^()]*\))?[^()]*\)", ""), (r"\.with_destructed\(true\)", ""),
+        (r"\.with_weaked\(true\)", ""), (r"\badd_strong\b", "sub_strong"), (r"\bsub_strong\b", "add_strong"),
+        (r"\bfetch_add\b", "fetch_sub"), (r"\bfetch_sub\b", "fetch_add"), (r"\bwrapping_add\b", "wrapping_sub"),
+        (r"\bwrapping_sub\b", "wrapping_add"), (r"\.pinned\(\)", ".unpinned()"), (r"\.unpinned\(\)", ".pinned()"),
+        (r"\.successor\(\)", ""), (r"\bcompare_exchange_weak\b", "compare_exchange"), (r" && [^&|{]+(?= \{| &&| \|\||$)", ""),
+        (r" \|\| [^&|{]+(?= \{| &&| \|\||$)", ""), (r"\bOk\(_\) => break\b", "Ok(_) => continue"),
+        (r"\.counted\(\)", ".counted().clone()"), (r"\bforget\(([a-z_.]+)\)", r"drop(\1)"), (r"\bdrop\(([a-z_.]+)\)", r"forget(\1)"),
+        (r"\bmin\b", "max"), (r"\bmax\b", "min"), (r"\b64\b", "1"), (r"\b128\b", "1"), (r"\b1024\b", "4"),
+        (r"\bis_pinned\(\)", "is_pinned() == false"), (r"\.is_expired\(", ".is_expired_not(")]
+
+
+def gen2():
+    """second round: stronger operators - forced branches, dropped conjuncts, dropped builders, swapped siblings,
+    multi-line statement deletion"""
+    ms = []
+    lines_by_file = {}
+    for (rel, i, l) in source_lines():
+        lines_by_file.setdefault(rel, {})[i] = l
+        code = l.split("//")[0]
+        for (pat, rep) in OPS2:
+            if rep == ".is_expired_not(":
+                continue
+            for m in re.finditer(pat, code):
+                new = l[:m.start()] + m.expand(rep) + l[m.end():]
+                if new != l:
+                    ms.append({"file": rel, "line": i, "old": l, "new": new, "op": "%s->%s" % (pat[:18], rep[:12])})
+        s_ = code.strip()
+        m = re.match(r"^(\s*)(\}? ?else )?if (?!let )(.+) \{$", code)
+        if m and "cfg!" not in code:
+            for forced in ("true", "false"):
+                new = "%s%sif %s {" % (m.group(1), m.group(2) or "", forced)
+                ms.append({"file": rel, "line": i, "old": l, "new": new, "op": "if->" + forced})
+    # multi-line statement deletion: `<indent>expr(`  ...  `<indent>);`
+    for rel in sorted(lines_by_file):
+        full = open(os.path.join(REPO, rel)).read().split("\n")
+        idxs = sorted(lines_by_file[rel])
+        for i in idxs:
+            l = full[i]
+            ind = len(l) - len(l.lstrip())
+            s_ = l.strip()
+            if not s_ or s_.endswith(";") or s_.startswith(("let ", "return", "}", "if ", "match ", "for ", "while ", "loop", "pub ", "fn ", "unsafe fn", "impl", "struct", "enum")):
+                continue
+            if not (s_.endswith("(") or s_.endswith(",") or s_.endswith("(|| {")):
+                continue
+            for j in range(i + 1, min(i + 9, len(full))):
+                lj = full[j]
+                if len(lj) - len(lj.lstrip()) == ind and lj.strip() in (");", "});", "])"):
+                    if lj.strip().endswith(";") and all((k in lines_by_file[rel]) or not full[k].strip() for k in range(i, j + 1)):
+                        ms.append({"file": rel, "line": i, "old": l, "new": None, "op": "delete-multiline", "upto": j})
+                    break
+                if len(lj) - len(lj.lstrip()) < ind:
+                    break
+    return ms
+
+
 def gen(state):
     ms = []
     for (rel, i, l) in source_lines():
@@ -58,8 +113,16 @@ def gen(state):
         if s.endswith(";") and not s.startswith(("let ", "return", "break", "continue", "type ", "const ", "static ", "pub ", "fn ", "}")) \
                 and s.count("(") == s.count(")") and s.count("{") == s.count("}"):
             ms.append({"file": rel, "line": i, "old": l, "new": l[:len(l) - len(l.lstrip())] + "// (deleted) " + s, "op": "delete-stmt"})
+    ms2 = gen2()
+    seen = {(m["file"], m["line"], m["new"]) for m in ms}
+    ms2 = [m for m in ms2 if (m["file"], m["line"], m["new"]) not in seen]
+    if os.environ.get("MSWEEP_ROUND") == "2":
+        ms = ms2
+        base = 1000
+    else:
+        base = 0
     for k, m in enumerate(ms):
-        m["id"] = "M%04d" % k
+        m["id"] = "M%04d" % (base + k)
     os.makedirs(state, exist_ok=True)
     json.dump(ms, open(os.path.join(state, "mutants.json"), "w"), indent=0)
     print(len(ms), "mutants")
@@ -79,7 +142,11 @@ def _apply(d, m):
     p = os.path.join(d, m["file"])
     lines = open(p).read().split("\n")
     assert lines[m["line"]] == m["old"], "anchor moved"
-    lines[m["line"]] = m["new"]
+    if m.get("upto") is not None:
+        for k in range(m["line"], m["upto"] + 1):
+            lines[k] = "// (deleted) " + lines[k].strip()
+    else:
+        lines[m["line"]] = m["new"]
     open(p, "w").write("\n".join(lines))
 
 
